@@ -216,6 +216,11 @@ func (r *transport) handleUnrecognizedMethod(
 	req *http.Request,
 	urlKey string,
 ) (*http.Response, error) {
+	// only-if-cached (RFC 9111 §5.2.1.7) holds for every request: one that this
+	// cache never answers from its store is answered 504, not forwarded.
+	if internal.ParseCCRequestDirectives(req.Header).OnlyIfCached() {
+		return make504Response(req)
+	}
 	if !internal.IsUnsafeMethod(req.Method) {
 		resp, err := r.upstream.RoundTrip(req)
 		if err != nil {
